@@ -318,6 +318,7 @@ parse_child_output(const std::string& out,
     std::istringstream in(out);
     std::string line;
     bool in_block = false;
+    bool crash_sched_next = false;
     while (std::getline(in, line)) {
         if (line.empty())
             continue;
@@ -335,6 +336,21 @@ parse_child_output(const std::string& out,
                     (*batch_probes)[name] += v;
             } else if (line[0] == 'B') {
                 *batch_done = true;
+            } else if (line[0] == 'K' && line[1] == ' ') {
+                // a crashing run's last words: fingerprint, steps, time, and
+                // its schedule on the next line
+                unsigned long long fp, steps, vt;
+                if (sscanf(line.c_str(), "K %llx %llu %llu", &fp, &steps,
+                           &vt) == 3) {
+                    terminal->fp = fp;
+                    terminal->steps = steps;
+                    terminal->vtime = vt;
+                    crash_sched_next = true;
+                }
+            } else if (line[0] == 'S' && crash_sched_next) {
+                terminal->sched =
+                  parse_sched_line(line.size() > 1 ? line.substr(1) : "");
+                crash_sched_next = false;
             } else if (line[0] == 'R' && line[1] == ' ') {
                 in_block = true;
                 *has_terminal = true;
